@@ -93,6 +93,8 @@ def obligations(tier: str):
         add(f"tree_{dec}_f9_create", fixture="f9", rep="tree", decider=dec, max_depth=3 if not T else 4)
     for rep in ("ge", "sge", "dsge"):
         add(f"{rep}_f3n_create", fixture="f3n", rep=rep, decider="grow", max_depth=3 if rep != "dsge" else 4, gene_length=6 if rep == "ge" else 2)
+    add("tree_grow_f5_RV_refined_tuple_create", fixture="f5", grammar_fn="g_RV", rep="tree", decider="grow", max_depth=2)
+    add("ge_f5_RV_refined_tuple_create", fixture="f5", grammar_fn="g_RV", rep="ge", decider="grow", max_depth=2, gene_length=4)
     add("tree_grow_f11_concrete_start_crossover", fixture="f11", rep="tree", decider="grow", max_depth=3, ops=["crossover"])
     add("tree_grow_f1p_postponed_annotations_create", fixture="f1p", rep="tree", decider="grow", max_depth=3)
     add("sge_f1p_postponed_annotations_create", fixture="f1p", rep="sge", decider="grow", max_depth=2, gene_length=2)
